@@ -32,6 +32,7 @@ except Exception:
 # admission budget per job: the address-space cap of a job (memory_gb, default 8) is a ceiling, not what it uses
 # (typical: < 1 GB); jobs that declare memory_gb are budgeted in full
 DEFAULT_BUDGET_GB = 3
+TIMEOUT_SCALE = float(os.environ.get('VERIF_TIMEOUT_SCALE', '3'))
 
 TRUSTED_BASE = [
     'cbmc 6.11.0 / goto-cc / goto-instrument --dfcc (contract instrumentation) / kissat SAT solver',
@@ -149,6 +150,8 @@ def main(argv=None):
         for k in ('timeout', 'memory_gb', 'bounded', 'unwind', 'solver', 'object_bits', 'min_reach', 'properties'):
             if k in variant:
                 meta[k] = variant[k]
+        # declared timeouts are typical-time x 2..10 on an idle 16-core machine; the limit applied is CPU seconds x TIMEOUT_SCALE
+        meta['timeout'] = int(int(meta.get('timeout', 300)) * TIMEOUT_SCALE)
         name = meta['name']
         wd = os.path.join(scratch, name + '.' + variant['name'])
         os.makedirs(wd, exist_ok=True)
